@@ -62,6 +62,28 @@ ASSUMPTIONS = [
     "buffiter parameters are integers; a non-integer chunk / factor is refused with ValueError by islice (for factor: "
     "after the first chunk has been delivered - recorded as an observation)",
     "repr/str of objects whose text contains an address, and the id-based default hash, are compared up to the address",
+    "operands of one operator / comparison are of UNRELATED types: Python gives the reflected method of the right operand "
+    "priority when its type is a subclass of the left operand's type that overrides it; the netref classes of a class and "
+    "of its subclass are unrelated, so through two proxies the left operand's method runs first (measured every run, "
+    "observations_outside_the_property) - outside the statement as modelled (DataModel.binaryOp has no subclass rule)",
+    "`proxy.__class__` / isinstance(proxy, LocalClass) name the class the proxy's side finds under the target class's "
+    "module and __name__: a nested or function-local class resolves to a same-named module-level class if there is one "
+    "(measured every run) - the name-based class resolution of class_factory is not modelled",
+    "the proxy's set of special methods is the set of CALLABLE attributes of the target's type: a type that switches a "
+    "protocol off with `__contains__ = None` / `__iter__ = None` / `__hash__ = None` has no such method on its proxies, so "
+    "the interpreter's fallback (e.g. `in` by iteration) runs instead of the TypeError (measured every run) - outside the "
+    "statement; instance-level special methods are ignored by both",
+    "handing a target over runs identity probes ON the target (get_id_pack: hasattr(obj, '____id_pack__'), getattr(obj, "
+    "'__name__', None); _handle_instancecheck / _handle_inspect: hasattr(obj, '____conn__')): a target whose __getattr__ "
+    "has side effects for such names sees them although direct use asks nothing (measured every run).  The generators' "
+    "targets with a recording / vivifying __getattr__ (Counting, Tree) deliberately ignore names starting with `_` / `__` "
+    "so that these probes do not show as state differences: the probes are admitted here, not tested",
+    "operand and result values inside brine's domain (C04): an int the interpreter refuses to render (over 4300 digits) as "
+    "an operand raises ValueError at the caller before the request is sent; as a result it raises after the method ran "
+    "once; NaN operands are left out (identity short-cuts of containers cannot survive a copy: C03)",
+    "isinstance / issubclass / __class__ queries are checked against the harness's own classes (exact local classes, "
+    "compared by identity where the class is importable and by module + name otherwise); there is no second interpreter "
+    "and no run with the target classes masked out of sys.modules",
 ]
 EXPLANATION = (
     "Theorems: forwarding_faithful (for every object semantics, heap, target and forwarded operation whose attribute "
@@ -126,6 +148,9 @@ def prefix_on(config_name):
 ADDR = re.compile(r"0x[0-9a-fA-F]+")
 KNOWN_TYPE_METHODS = "builtin-instance-proxy-has-type-methods"
 KNOWN_POLICY_PROBE = "policy-probe-evaluates-attribute"
+SIG_ISINSTANCE_SUBCLASS = "isinstance-subclass-through-class-proxy"
+SIG_ISINSTANCE_VALUE = "isinstance-value-vs-unresolvable-class"
+SIG_WITH_NO_EXIT = "with-enter-without-exit"
 
 
 # ---------------------------------------------------------------------------------------------- the objects
@@ -445,6 +470,35 @@ class Tree(object):
 
     def names(self):
         return tuple(sorted(vars(self)))
+
+
+class IBase(object):
+    """a small class hierarchy that can be imported by name on the proxy's side"""
+
+
+class IDerived(IBase):
+    pass
+
+
+def local_hierarchy():
+    """the same hierarchy as classes that can NOT be found by name (made inside a function)"""
+    class LBase(object):
+        pass
+
+    class LDerived(LBase):
+        pass
+    return LBase, LDerived
+
+
+class EnterOnly(object):
+    """has `__enter__` but no `__exit__`: not a context manager - `with` refuses it before anything runs"""
+
+    def __init__(self):
+        self.log = []
+
+    def __enter__(self):
+        self.log.append("enter")
+        return self
 
 
 class CustomError(Exception):
@@ -1984,6 +2038,152 @@ def access_hooks_case(which, config_name):
     return steps, problems
 
 
+def instancecheck_case(which, config_name):
+    """isinstance / issubclass with a PROXY OF A CLASS as second argument, against the same question asked of the
+    classes themselves: instances of the class, of a subclass, of an unrelated class, builtin hierarchies (OrderedDict
+    vs dict, anything vs object), and plain values; for a hierarchy the proxy's side can import by name and one it cannot"""
+    sess = Session(config_name)
+    steps, problems = [], []
+    try:
+        Base, Derived = (IBase, IDerived) if which == "importable" else local_hierarchy()
+        far = dict(Base=Base, Derived=Derived, d=Derived(), b=Base(), od=collections.OrderedDict(), lst=[1],
+                   dict=dict, object=object, int=int)
+        prox = dict((k, sess.lend(v)) for k, v in far.items())
+        qs = [("isinstance(d, Base)", "d", "Base", "sub"), ("isinstance(d, Derived)", "d", "Derived", ""),
+              ("isinstance(b, Derived)", "b", "Derived", ""), ("isinstance(b, Base)", "b", "Base", ""),
+              ("isinstance(od, dict)", "od", "dict", "sub"), ("isinstance(d, object)", "d", "object", "sub"),
+              ("isinstance(lst, dict)", "lst", "dict", ""), ("isinstance(od, Base)", "od", "Base", ""),
+              ("isinstance(5, Base)", 5, "Base", "value"), ("isinstance('s', Derived)", "s", "Derived", "value"),
+              ("isinstance(5, int)", 5, "int", "value"), ("isinstance(None, object)", None, "object", "value")]
+        for text, x, cls, tag in qs:
+            xp, xt = (prox[x], far[x]) if type(x) is str and x in far else (x, x)
+            (kp, vp), exp = outcome(lambda: isinstance(xp, prox[cls]))
+            if exp is not None and is_policy_denial(exp):
+                steps.append((text, "refused by the configuration", None))
+                continue
+            (kt, vt), ext = outcome(lambda: isinstance(xt, far[cls]))
+            steps.append((text, str((kp, vp)), str((kt, vt))))
+            if (kp, vp) != (kt, vt):
+                if tag == "sub" and (kp, vp, kt, vt) == ("ok", False, "ok", True):
+                    sig = SIG_ISINSTANCE_SUBCLASS
+                elif tag == "value" and kp == "exc" and vp == "AttributeError" and "'NoneType'" in str(exp):
+                    sig = SIG_ISINSTANCE_VALUE
+                else:
+                    sig = "twin:instancecheck"
+                problems.append((len(steps) - 1, text, "through the class proxy %r, with the class itself %r" % ((kp, vp), (kt, vt)), sig))
+        (kp, vp), exp = outcome(lambda: issubclass(prox["Derived"], prox["Base"]))
+        (kt, vt), ext = outcome(lambda: issubclass(far["Derived"], far["Base"]))
+        steps.append(("issubclass(Derived, Base)", str((kp, vp)), str((kt, vt))))
+        if (kp, vp) != (kt, vt) and not (exp is not None and is_policy_denial(exp)):
+            problems.append((len(steps) - 1, "issubclass(Derived, Base)", "through the proxies %r, directly %r" % ((kp, vp), (kt, vt)), "twin:instancecheck"))
+        if not sess.usable():
+            problems.append((len(steps), "end", "the connection is not usable afterwards", "twin:instancecheck"))
+    except Exception as ex:  # noqa
+        problems.append((len(steps), "setup", "could not run: %s" % type(ex).__name__, "twin:instancecheck"))
+    finally:
+        died = sess.close()
+    if died:
+        problems.append((len(steps), "end", "the serving side died: %r" % (died[:1],), "twin:instancecheck"))
+    return steps, problems
+
+
+def with_no_exit_case(config_name):
+    """`with proxy:` on a target that has `__enter__` but no `__exit__`: directly the `with` statement refuses the object
+    before anything runs; the proxy's type always has `__exit__` (BaseNetref defines it), so through the proxy `__enter__`
+    and the body run first"""
+    sess = Session(config_name)
+    steps, problems = [], []
+    try:
+        far, twin = EnterOnly(), EnterOnly()
+        p = sess.lend(far)
+
+        def block(o, log):
+            with o:
+                log.append("body")
+        (kp, vp), exp = outcome(lambda: block(p, far.log))
+        (kt, vt), ext = outcome(lambda: block(twin, twin.log))
+        rp, rt = (kp, vp, list(far.log)), (kt, vt, list(twin.log))
+        steps.append(("with target-with-__enter__-only: pass", str(rp), str(rt)))
+        if rp != rt and not (exp is not None and is_policy_denial(exp)):
+            sig = SIG_WITH_NO_EXIT if rp == ("exc", "AttributeError", ["enter", "body"]) and rt == ("exc", "TypeError", []) else "twin:with-no-exit"
+            problems.append((0, "with proxy", "through the proxy %r, directly %r (outcome, exception class, what ran on the target)" % (rp, rt), sig))
+        if not sess.usable():
+            problems.append((1, "end", "the connection is not usable afterwards", "twin:with-no-exit"))
+    except Exception as ex:  # noqa
+        problems.append((len(steps), "setup", "could not run: %s" % type(ex).__name__, "twin:with-no-exit"))
+    finally:
+        died = sess.close()
+    if died:
+        problems.append((len(steps), "end", "the serving side died: %r" % (died[:1],), "twin:with-no-exit"))
+    return steps, problems
+
+
+def data_model_observations():
+    """behaviours outside the statement as modelled (see ASSUMPTIONS), measured every run and judged by nobody"""
+    out = {}
+    sess = Session("classic")
+    try:
+        def brief(fn):
+            try:
+                return "%r" % (fn(),)
+            except Exception as ex:  # noqa
+                return "raises %s" % type(ex).__name__
+
+        class A(object):
+            def __add__(self, o):
+                return "A.__add__"
+
+            def __eq__(self, o):
+                return "A.__eq__"
+            __hash__ = None
+
+        class B(A):
+            def __radd__(self, o):
+                return "B.__radd__"
+
+            def __eq__(self, o):
+                return "B.__eq__"
+        out["subclass priority of reflected methods, B(A) overriding __radd__ / __eq__: A() + B(), A() == B()"] = \
+            "through two proxies: %s, %s; directly: %s, %s" % (brief(lambda: sess.lend(A()) + sess.lend(B())), brief(lambda: sess.lend(A()) == sess.lend(B())),
+                                                               brief(lambda: A() + B()), brief(lambda: A() == B()))
+
+        class NoContains(object):
+            def __iter__(self):
+                return iter([1, 2, 3])
+            __contains__ = None
+        out["a type with `__contains__ = None` (and __iter__): 2 in obj"] = \
+            "through the proxy: %s; directly: %s" % (brief(lambda: 2 in sess.lend(NoContains())), brief(lambda: 2 in NoContains()))
+
+        class Asked(object):
+            def __init__(self):
+                object.__setattr__(self, "asked", [])
+
+            def __getattr__(self, n):
+                self.asked.append(n)
+                raise AttributeError(n)
+        a = Asked()
+        sess.lend(a)
+        out["names a target's __getattr__ is asked for by merely handing it over"] = repr(sorted(set(a.asked)))
+        import sys as _sys
+        import types as _types
+        mod = _types.ModuleType("c02_observed_module")
+        exec("class Config(object): pass\nclass Outer(object):\n    class Config(object): pass\n", mod.__dict__)
+        _sys.modules["c02_observed_module"] = mod
+        try:
+            nested = mod.Outer.Config()
+            out["a nested class Outer.Config next to a module-level Config: isinstance(obj, module.Config)"] = \
+                "through the proxy: %s; directly: %s" % (brief(lambda: isinstance(sess.lend(nested), mod.Config)), brief(lambda: isinstance(nested, mod.Config)))
+        finally:
+            _sys.modules.pop("c02_observed_module", None)
+        lst = []
+        out["list.append(10**5000) through a proxy"] = "%s; the target then holds %d items" % (brief(lambda: sess.lend(lst).append(10 ** 5000)), len(lst))
+    except Exception as ex:  # noqa
+        out["data-model observations"] = "could not run: %s" % type(ex).__name__
+    finally:
+        sess.close()
+    return out
+
+
 def fixed_cases():
     """deterministic cases run every time: (kind, parameters)"""
     out = [("class_instance", list(c)) for c in class_instance_cases()]
@@ -1993,6 +2193,8 @@ def fixed_cases():
     out += [("policy_probe", ["public"])]
     out += [("access_hooks", ["hooked", cfg]) for cfg in ("classic", "all-attrs", "public", "default")]
     out += [("access_hooks", ["autoviv", "classic"])]
+    out += [("instancecheck", [which, cfg]) for which in ("importable", "local") for cfg in ("classic", "all-attrs")]
+    out += [("with_no_exit", [cfg]) for cfg in ("classic", "public")]
     return out
 
 
@@ -2009,6 +2211,10 @@ def run_fixed(kind, params):
         return policy_probe_case(*params)
     if kind == "access_hooks":
         return access_hooks_case(*params)
+    if kind == "instancecheck":
+        return instancecheck_case(*params)
+    if kind == "with_no_exit":
+        return with_no_exit_case(*params)
     raise ValueError(kind)
 
 
@@ -2112,6 +2318,8 @@ def correspondence(ctx):
                 known_hits[sig] += 1
                 continue
             c.disagreements.append(dict(case=dict(fixed=[fkind, params]), op="%s:%s" % (fkind, label), impl=text[:700], model="(proxy == twin)"))
+    for k_, v_ in data_model_observations().items():
+        observations["%s: %s" % (k_, v_)] += 1
     for text in caller_side_comparison_observation():
         observations["comparison with a caller-side object as operand (outside the property): " + text] += 1
     try:
@@ -2409,6 +2617,21 @@ def _known_probes():
                 + "; a target with a dynamic __getattr__ sees a lookup of `exposed_<name>` on every access while the prefix is on: "
                 + ("after `proxy.alpha` an auto-vivifying namespace holds %r, after `twin.alpha` only ['alpha']" % (sorted(vars(far)),)
                    if stray else "not reproduced")))
+    for sig, (steps, problems), text in (
+            (SIG_ISINSTANCE_SUBCLASS, instancecheck_case("local", "classic"),
+             "isinstance(instance_of_a_SUBCLASS, proxy_of_the_base_class) answers False (directly True; also OrderedDict vs "
+             "dict, anything vs object): Connection._handle_instancecheck answers False whenever the instance's own class is "
+             "not in a cache of netref classes, instead of asking isinstance() about the object the id pack names"),
+            (SIG_ISINSTANCE_VALUE, instancecheck_case("local", "classic"),
+             "isinstance(value, proxy_of_a_class_that_cannot_be_imported_here) raises AttributeError: 'NoneType' object has "
+             "no attribute 'instance' (directly False): BaseNetref.__instancecheck__ reads the class descriptor without "
+             "checking that the class could be resolved"),
+            (SIG_WITH_NO_EXIT, with_no_exit_case("classic"),
+             "`with proxy:` on a target that has __enter__ but no __exit__ runs __enter__ and the body, then raises "
+             "AttributeError; directly `with` raises TypeError before anything runs: BaseNetref defines __exit__ for every "
+             "proxy, so the interpreter's check of the proxy's TYPE cannot see that the target's type lacks it")):
+        hit = [p_ for p_ in problems if p_[3] == sig]
+        out.append((sig, bool(hit), text + (": " + hit[0][1] + ": " + hit[0][2] if hit else ": not reproduced")))
     return out
 
 
